@@ -107,9 +107,11 @@ for pr in ("tcp", "btls"):
         ob("addr.make.%s.%s" % (pr, kn), "addr/addr.c", ["-DOP_MAKE_HP", "-DKIND=%d" % kind, "-DIP6_TEXT_MAX=8", '-DPROTO="%s"' % pr, "-DPFUN=xcm_addr_parse_" + pr, "-DMFUN=xcm_addr_make_" + pr], ["C12"],
            unwind=27, unwindset=["strcmp.0:34", "strncpy.0:42"],
            desc="xcm_addr_make_%s, %s host, all 65536 ports, every capacity 0..len+2: 0 <=> complete address fits, content exact, nothing written past capacity" % (pr, kn))
+        if pr == "btls":
+            continue      # same host/port code as tcp; the per-transport part is the prefix (addr.make.btls.ipv6, addr.parse.btls.*)
         ob("addr.roundtrip.%s.%s" % (pr, kn), "addr/addr.c", ["-DOP_MAKE_HP", "-DROUNDTRIP", "-DKIND=%d" % kind, "-DIP6_TEXT_MAX=8", '-DPROTO="%s"' % pr, "-DPFUN=xcm_addr_parse_" + pr, "-DMFUN=xcm_addr_make_" + pr], ["C12"],
            tier="thorough", unwind=27, unwindset=["strcmp.0:34", "strncpy.0:42"], timeout=3000,
-           desc="parse(make(x)) = x for %s, %s host" % (pr, kn))
+           desc="parse(make(x)) = x for %s, %s host, all 65536 ports%s" % (pr, kn, " (IPv4: first and last octet arbitrary, middle octets fixed)" if kind == 1 else ""))
 for pr in ("ux", "uxf"):
     ob("addr.parse.%s.n8" % pr, "addr/addr.c", ["-DOP_PARSE_UX", '-DPROTO="%s"' % pr, "-DPFUN=xcm_addr_parse_" + pr, "-DNTAIL=8"], ["C12"],
        unwind=18, unwindset=["strcmp.0:34"], desc="xcm_addr_parse_%s on '%s:' + 8 arbitrary bytes, every capacity" % (pr, pr))
